@@ -18,7 +18,10 @@ pub type Model = BTreeMap<Vec<u8>, Vec<u8>>;
 /// The merge policy enum is private to the crate; it is chosen through serde, the way the
 /// server's configuration file does it, and everything else through the public builder.
 pub fn build_conf(cfg: &StoreCfg, path: &str) -> bc::Config {
-    let json = serde_json::json!({ "merge": { "policy": if cfg.merge_always { "always" } else { "never" } } });
+    let json = match cfg.merge_window {
+        Some((start, end)) => serde_json::json!({ "merge": { "policy": { "window": { "start": start, "end": end } } } }),
+        None => serde_json::json!({ "merge": { "policy": if cfg.merge_always { "always" } else { "never" } } }),
+    };
     let mut c: bc::Config = serde_json::from_value(json).expect("policy config");
     c.path(path)
         .concurrency(cfg.pool)
